@@ -55,7 +55,7 @@ theorem ipkOuter_ok (mtime : Nat) (z : Bytes → Bytes) (control data : List Tar
       Tar.MemberOK { hdr := { name := name, mode := 0o644, size := body.length, mtime := mtime }, body := body } := by
     intro name body hl h0 hs
     exact { hdr := { nameLen := hl, nameNul := h0, linkLen := by simp, linkNul := by simp, unameLen := by simp, unameNul := by simp,
-                     gnameLen := by simp, gnameNul := by simp,
+                     gnameLen := by simp, gnameNul := by simp, prefixLen := by simp, prefixNul := by simp,
                      mode := by show 0o644 < Tar.numBound .gnu 8; decide, uid := by show 0 < Tar.numBound .gnu 8; decide,
                      gid := by show 0 < Tar.numBound .gnu 8; decide,
                      size := by
